@@ -40,7 +40,7 @@ PROPS['C06'] = dict(
 )
 PROPS['C15'] = dict(
   level='proof',
-  verus=[dict(unit='peephole', min_functions=18), dict(unit='bytecode', min_functions=5), dict(unit='lines', min_functions=1), dict(unit='pipeline', min_functions=1), dict(unit='parserd', min_functions=5), dict(unit='resolverd', min_functions=2), dict(unit='scannerd', min_functions=9), dict(unit='narrowc', min_functions=4), dict(unit='limitsc', min_functions=4), dict(unit='resolvevar', min_functions=1), dict(unit='resolvestmt', min_functions=10), _findings_variant(['apply_stack_effects']), dict(unit='dispatchr', min_functions=3), dict(unit='blockr', min_functions=2)],
+  verus=[dict(unit='peephole', min_functions=18), dict(unit='bytecode', min_functions=5), dict(unit='lines', min_functions=1), dict(unit='pipeline', min_functions=1), dict(unit='parserd', min_functions=5), dict(unit='resolverd', min_functions=2), dict(unit='scannerd', min_functions=9), dict(unit='narrowc', min_functions=4), dict(unit='limitsc', min_functions=4), dict(unit='resolvevar', min_functions=1), dict(unit='resolvestmt', min_functions=10), _findings_variant(['apply_stack_effects']), dict(unit='dispatchr', min_functions=3), dict(unit='blockr', min_functions=2), dict(unit='parsertok', min_functions=4)],
   not_decided=['Compiler totality, the scanner keyword trie (identifier_type: str slicing) and its constructor, all of the resolver except for_ / while_ (resolverd unit), all of the parser except its loop-depth bookkeeping (parserd unit: loop_, break_, continue_, function, lambda, fun_body); REPL continuation'],
 )
 PROPS['C18'] = dict(
@@ -57,7 +57,7 @@ PROPS['C04'] = dict(
 
 PROPS['C01'] = dict(
   level='proof',
-  verus=[dict(unit='ops', min_functions=20), dict(unit='native', min_functions=3), dict(unit='retops', min_functions=1), dict(unit='mapops', min_functions=1), dict(unit='iterops', min_functions=2), dict(unit='launchops', min_functions=1), dict(unit='funcc', min_functions=1), dict(unit='compilerd', min_functions=2), dict(unit='forc', min_functions=1), dict(unit='prattops', min_functions=8), dict(unit='prattloop', min_functions=1), dict(unit='calls', min_functions=4), dict(unit='scopec', min_functions=8), dict(unit='parserblk', min_functions=2), dict(unit='parserd', min_functions=6), dict(unit='limitsc', min_functions=2), dict(unit='parserret', min_functions=5), dict(unit='parserasg', min_functions=4), dict(unit='parserloop', min_functions=2), dict(unit='parserstmt', min_functions=1), dict(unit='parsertry', min_functions=1), dict(unit='launchc', min_functions=1), dict(unit='methodc', min_functions=2), dict(unit='literalc', min_functions=5), dict(unit='dispatchc', min_functions=3), dict(unit='dispatchvm', min_functions=1), dict(unit='basicvm', min_functions=1), dict(unit='operandvm', min_functions=3), dict(unit='rawstack', min_functions=6), dict(unit='popframe', min_functions=2), dict(unit='blockc', min_functions=2)],
+  verus=[dict(unit='ops', min_functions=20), dict(unit='native', min_functions=3), dict(unit='retops', min_functions=1), dict(unit='mapops', min_functions=1), dict(unit='iterops', min_functions=2), dict(unit='launchops', min_functions=1), dict(unit='funcc', min_functions=1), dict(unit='compilerd', min_functions=2), dict(unit='forc', min_functions=1), dict(unit='prattops', min_functions=8), dict(unit='prattloop', min_functions=1), dict(unit='calls', min_functions=4), dict(unit='scopec', min_functions=8), dict(unit='parserblk', min_functions=2), dict(unit='parserd', min_functions=6), dict(unit='limitsc', min_functions=2), dict(unit='parserret', min_functions=5), dict(unit='parserasg', min_functions=4), dict(unit='parserloop', min_functions=2), dict(unit='parserstmt', min_functions=1), dict(unit='parsertry', min_functions=1), dict(unit='launchc', min_functions=1), dict(unit='methodc', min_functions=2), dict(unit='literalc', min_functions=5), dict(unit='dispatchc', min_functions=3), dict(unit='dispatchvm', min_functions=1), dict(unit='basicvm', min_functions=1), dict(unit='operandvm', min_functions=3), dict(unit='rawstack', min_functions=6), dict(unit='popframe', min_functions=2), dict(unit='blockc', min_functions=2), dict(unit='parsertok', min_functions=4)],
   kani=[dict(crate='front', harnesses=['proofs::o01_p_infix_table', 'proofs::o01_p_infix_action', 'proofs::o01_p_prefix_action', 'proofs::o01_p_higher', 'proofs::o01_p_prefix_table'], kind='complete', assumption_ids=['A-kani']),
         dict(crate='value', harnesses=['proofs::o14_6_falsey', 'proofs::o14_3_num_eq_ieee'], features='', kind='complete', assumption_ids=['A-kani']),
         dict(crate='value', harnesses=['proofs::o14_6_falsey', 'proofs::o14_3_num_eq_ieee'], features='nan_boxing', kind='complete', assumption_ids=['A-kani'])],
